@@ -46,6 +46,9 @@ type provBal struct {
 	credits  map[string]sdk.DecCoins // consumer -> credited rewards (all denoms)
 	outstanding map[string]sdk.DecCoins // validator name -> outstanding rewards
 	community sdk.DecCoins
+	commission map[string]sdk.DecCoins // validator name -> accumulated commission
+	rates    map[string]map[string]math.LegacyDec // consumer -> validator name -> commission rate in force for that consumer's rewards
+	custom   map[string]map[string]bool // consumer -> validator name -> a per-consumer rate is set
 	sets     map[string][]world.CV
 	height   int64
 }
@@ -108,6 +111,32 @@ func (m *C16) takeProvBal(w *world.World) *provBal {
 	}
 	if fp, err := w.P.PApp.DistrKeeper.FeePool.Get(ctx); err == nil {
 		pb.community = fp.CommunityPool
+	}
+	pb.commission = map[string]sdk.DecCoins{}
+	pb.rates = map[string]map[string]math.LegacyDec{}
+	pb.custom = map[string]map[string]bool{}
+	for _, name := range w.ValOrder {
+		if c, err := w.P.PApp.DistrKeeper.GetValidatorAccumulatedCommission(ctx, w.ValAddr(name)); err == nil {
+			pb.commission[name] = c.Commission
+		}
+	}
+	for _, id := range w.ConsumerIDs() {
+		pb.rates[id] = map[string]math.LegacyDec{}
+		pb.custom[id] = map[string]bool{}
+		for _, name := range w.ValOrder {
+			val, err := w.P.PApp.StakingKeeper.GetValidator(ctx, w.ValAddr(name))
+			if err != nil {
+				continue
+			}
+			rate := val.Commission.Rate
+			if ca, err := val.GetConsAddr(); err == nil {
+				if cr, found := k.GetConsumerCommissionRate(ctx, id, providertypes.NewProviderConsAddress(ca)); found {
+					rate = cr
+					pb.custom[id][name] = true
+				}
+			}
+			pb.rates[id][name] = rate
+		}
 	}
 	return pb
 }
@@ -336,6 +365,22 @@ func (m *C16) After(w *world.World, a *world.Action, r *world.StepResult) *Viola
 					gains = append(gains, gain{name, g, p})
 				} else if g.IsPositive() {
 					return violf(P, "ineligible-paid", "validator %s received %s%s from consumer %s although it is not an eligible member of its validator set (eligible: %v)", name, g, c.Denom, id, sortedKeys(eligible))
+				}
+			}
+			// each payment is split under the validator's commission rate for this consumer (its own rate if none is set)
+			for _, gn := range gains {
+				rate, known := pre.rates[id][gn.name]
+				if !known || !gn.g.IsPositive() {
+					continue
+				}
+				dc := post.commission[gn.name].AmountOf(c.Denom).Sub(pre.commission[gn.name].AmountOf(c.Denom))
+				wantC := gn.g.Mul(rate)
+				tol := math.LegacyNewDecWithPrec(1, 9).Add(gn.g.Mul(math.LegacyNewDecWithPrec(1, 12)))
+				if dc.Sub(wantC).Abs().GT(tol) {
+					return violf(P, "commission", "consumer %s payout in %s: validator %s received %s, its commission grew by %s, want %s = rate %s in force for that consumer (per-consumer rate set: %v)", id, c.Denom, gn.name, gn.g, dc, wantC, rate, pre.custom[id][gn.name])
+				}
+				if pre.custom[id][gn.name] {
+					w.Label("payout-custom-commission")
 				}
 			}
 			for i := range gains {
